@@ -25,7 +25,8 @@ def cases(chk):
         yield c["source"], c["n_init"], "corpus:" + os.path.basename(path)
     n = 220 if chk.tier == "thorough" else 28
     for _ in range(n):
-        prog = R.gen_program(chk.rng, chk.rng.randint(3, 6), codeblocks=chk.rng.random() < 0.3)
+        prog = R.gen_program(chk.rng, chk.rng.randint(3, 6), codeblocks=chk.rng.random() < 0.3,
+                             struct=chk.rng.random() < 0.25, calls=chk.rng.random() < 0.2)
         yield R.source_of(prog), R.n_init_nodes(prog), "gen"
 
 
@@ -70,10 +71,12 @@ def prepare(parsed, i, j, with_extract=False):
     """real lists + the driver lines of one region"""
     nodes = parsed.region_nodes(i, j)
     real_in, real_out = R.real_inout(nodes)
-    if R.has_codeblock(nodes):
-        # MiniF cannot execute the region: access model with CodeBlock items, ExtractTrans
-        # accept/refuse always, property via the gfortran replay oracle (in conclude)
-        ctx = {"parsed": parsed, "i": i, "j": j, "real": [real_in, real_out], "cb": True, "partial": {},
+    if R.non_minif(nodes):
+        # MiniF cannot execute the region (CodeBlock, or call of unknown intent): access model
+        # with CodeBlock items / READWRITE arguments, ExtractTrans accept/refuse always, property
+        # via the gfortran replay oracle (in conclude)
+        ctx = {"parsed": parsed, "i": i, "j": j, "real": [real_in, real_out], "cb": True,
+               "has_cb": R.has_codeblock(nodes), "partial": R.partial_first_writes(nodes),
                "extract": R.real_extract_lists(parsed, i, j)}
         return ctx, [R.line("extract", R.access_items(parsed, nodes))]
     lines = [R.line("inout", parsed.export(nodes))] + [replay_line(parsed, i, j, real_in, d) for d in DELTAS]
@@ -83,7 +86,7 @@ def prepare(parsed, i, j, with_extract=False):
     return ctx, lines
 
 
-GF_BUDGET = {"left": 0, "accepted_left": 10 ** 6}
+GF_BUDGET = {"left": 0, "accepted_left": 10 ** 6, "calls_left": 10 ** 6}
 
 
 def conclude_cb(ctx, out, force_oracle=False):
@@ -93,10 +96,15 @@ def conclude_cb(ctx, out, force_oracle=False):
     m = common.parse_sx(out[0])
     id2n = {v: k for k, v in parsed.names.table().items()}
     model = [sorted(id2n[x] for x in m[1]), sorted(id2n[x] for x in m[2])]
-    res = {"real": [real_in, real_out], "model": model, "wfw": False, "od": False, "fails": [], "partial": {},
-           "cb": True, "extract": ctx["extract"], "model_extract": m[0], "oracle": "not run"}
+    res = {"real": [real_in, real_out], "model": model, "wfw": False, "od": False, "fails": [],
+           "partial": ctx["partial"], "cb": True, "has_cb": ctx["has_cb"], "extract": ctx["extract"],
+           "model_extract": m[0], "oracle": "not run"}
     accepted = ctx["extract"] is not None
-    if accepted and not force_oracle:
+    if not ctx["has_cb"] and not force_oracle:
+        # call region (ExtractTrans accepts these on the clean tree too): own budget
+        accepted_run = accepted and GF_BUDGET["calls_left"] > 0
+        GF_BUDGET["calls_left"] -= 1
+    elif accepted and not force_oracle:
         # ExtractTrans ACCEPTED a region with a CodeBlock: evaluate (bounded number per run)
         accepted_run = GF_BUDGET["accepted_left"] > 0
         GF_BUDGET["accepted_left"] -= 1
@@ -196,6 +204,13 @@ def classify(res):
     if not res["fails"]:
         return None
     kinds = {k for k, _ in res["fails"]}
+    if res.get("cb") and not res.get("has_cb"):
+        # region with a call of unknown intent, evaluated by gfortran (no stored-value check):
+        # only the partial-first-write classes can explain a failure
+        if "dynamic-write-not-output" in kinds or res["model"] != res["real"] or not res["partial"] \
+                or res["model_extract"] != ("refuse" if res["extract"] is None else "accept"):
+            return None
+        return "C12-partial-output-not-input"
     if res.get("cb"):
         # a CodeBlock's accesses are invisible to get_in_out_parameters; ExtractTrans must
         # therefore refuse such regions — an ACCEPTED one that fails is never a known finding
@@ -223,7 +238,9 @@ def run(chk):
                        "statements: element writes, read-modify-writes, scalar temporaries, IF with/without ELSE, "
                        "loops incl. zero-trip/negative step, DO WHILE bounded by a counter (8% of statements), nesting <=3; 30% "
                        "of the routines also contain expression CodeBlocks (array constructors with implied DO) and "
-                       "statement CodeBlocks (FORALL, PRINT)); for regions with a CodeBlock: real lists vs. the model "
+                       "statement CodeBlocks (FORALL, PRINT), 25% use members of a structure (g%d(i), g%n), 20% call an "
+                       "external subroutine of unknown intent, inner loop bounds may depend on outer loop variables, "
+                       "same-element write-then-read pairs); for regions with a CodeBlock or a call: real lists vs. the model "
                        "in which CodeBlocks contribute no access, ExtractTrans accept/refuse vs. RegionData.extractTrans "
                        "on every such region, property by the gfortran replay oracle (all ACCEPTED ones up to a cap, "
                        "a sample of the refused ones); non-trivial = region with >=1 write and "
@@ -255,7 +272,7 @@ def run(chk):
     chk.cov["lean_build_audit_s"] = round(time.time() - t0, 1)
     dist = {"regions": 0, "programs": 0, "model_agrees": 0, "WholeFirstWrites": 0, "OutputsDefined": 0,
             "failing_known": {}, "extract_checked": 0, "extract_refused": 0, "skipped_unsupported": 0,
-            "codeblock_regions": 0, "codeblock_oracle_runs": 0, "regions_with_while": 0}
+            "codeblock_regions": 0, "codeblock_oracle_runs": 0, "call_regions": 0, "regions_with_struct_member": 0, "regions_with_while": 0}
     reported = set()
     todo, lines = [], []
     for src, n_init, origin in cases(chk):
@@ -281,6 +298,7 @@ def run(chk):
     chk.cov["driver_s"] = round(time.time() - t1, 1)
     GF_BUDGET["left"] = 40 if chk.tier == "thorough" else 8
     GF_BUDGET["accepted_left"] = 60 if chk.tier == "thorough" else 12
+    GF_BUDGET["calls_left"] = 40 if chk.tier == "thorough" else 8
     for ctx in todo:
         res = conclude(ctx, outs[ctx["at"]:ctx["at"] + ctx["n"]])
         src, n_init, i, j = ctx["parsed"].src, ctx["parsed"].n_init, ctx["i"], ctx["j"]
@@ -288,8 +306,10 @@ def run(chk):
         agreed = res["model"] == res["real"]
         case = {"source": src, "n_init": n_init, "region": [i, j]}
         if res.get("cb"):
-            dist["codeblock_regions"] += 1
+            dist["codeblock_regions"] += res["has_cb"]
+            dist["call_regions"] += not res["has_cb"]
             dist["codeblock_oracle_runs"] += res["oracle"] == "gfortran"
+        dist["regions_with_struct_member"] += any("%" in n for n in sum(res["real"], []))
         if "extract" in res:
             real_dec = "refuse" if res["extract"] is None else "accept"
             if real_dec != res["model_extract"]:
